@@ -141,7 +141,13 @@ MEMBERS3 = (
     ("Set[Union[int,str,float]]", Set[Union[int, str, float]]), ("Set[int]", Set[int]), ("List[Union[int,str,NoneType]]", List[Union[int, str, NoneType]]),
     ("List[int]", List[int]), ("Tuple[List[int]]", Tuple[List[int]]), ("Tuple[int]", Tuple[int]), ("Tuple[str]", Tuple[str]), ("NoneType", NoneType),
 )
-ALPHABETS = {"MEMBERS": MEMBERS, "MEMBERS2": MEMBERS2, "MEMBERS3": MEMBERS3}
+# fourth alphabet: anonymous TypedDicts as union members (a generator that yields differently shaped dicts has such a yield
+# type: the tracer builds Union[yield types] without merging them), next to plain classes and a Dict
+MEMBERS4 = (
+    ("TD(a:int)", make_typed_dict(required_fields={"a": int})), ("TD(b:str)", make_typed_dict(required_fields={"b": str})),
+    ("TD(a?:int)", make_typed_dict(optional_fields={"a": int})), ("A", K.A), ("B", K.B), ("NoneType", NoneType), ("Dict[str,int]", Dict[str, int]),
+)
+ALPHABETS = {"MEMBERS": MEMBERS, "MEMBERS2": MEMBERS2, "MEMBERS3": MEMBERS3, "MEMBERS4": MEMBERS4}
 WRAPPERS = ("bare", "List", "DictValue", "TDField", "GeneratorYield", "Optional", "TupleElem", "DefaultDictValue")
 
 
